@@ -31,6 +31,12 @@ func (x *inst) enabled() []string {
 	c := x.cfg
 	var out []string
 	nw := int(m.NW)
+	if m.Deleted {
+		if x.hold != nil {
+			return []string{"Release"}
+		}
+		return nil
+	}
 	for _, t := range c.Alphabet {
 		switch t {
 		case "W":
@@ -140,6 +146,18 @@ func (x *inst) enabled() []string {
 			if m.Open {
 				out = append(out, t)
 			}
+		case "Hold":
+			if x.hold == nil && types.ShouldPunchHoles {
+				out = append(out, t)
+			}
+		case "Release":
+			if x.hold != nil {
+				out = append(out, t)
+			}
+		case "Delete":
+			if m.Open {
+				out = append(out, t)
+			}
 		case "Close":
 			out = append(out, t)
 		case "Open":
@@ -158,6 +176,9 @@ func (x *inst) wants(o string) bool { return x.cfg.has(x.cfg.Oracles, o) }
 // lazily built block map, but successors are always recomputed from scratch, so these side effects are never seen.
 func (x *inst) oracles(key string, final bool) {
 	m := x.m
+	if m.Deleted {
+		return
+	}
 	deep := final || !deepSeen[key]
 	if len(deepSeen) > 200000 {
 		deepSeen = map[string]bool{}
